@@ -726,10 +726,105 @@ def gen_html():
     return rows
 
 
+FORM_TARGETS = {"pVars->intval": 0, "cfg->WIFI_SSID": 1, "cfg->WIFI_PWD": 2, "cfg->Server": 3, "cfg->Email": 4, "cfg->Username": 4,
+                "tempPassword": 5, "cfg->MqttTopicPrefix": 6, "user_cmd": 7}
+
+
+def gen_form_table():
+    """supla_esp_parse_vars: the else-if chain of field names -> Gen/FormTable.lean (name, VAR id, buffer size, destination,
+    protocol condition), plus the protocol field's name and the minimum number of counted fields.  Fails closed on any statement
+    in the chain that is not one of the recognised forms, and on a changed loop body."""
+    t = preprocess("src/user/supla_esp_cfgmode.c")
+    try:
+        body = t[t.index("supla_esp_parse_vars(TrivialHttpParserVars *pVars"):t.index("void supla_esp_parse_request(")]
+        proto = t[t.index("supla_esp_parse_proto_var(TrivialHttpParserVars *pVars"):t.index("supla_esp_parse_vars(TrivialHttpParserVars *pVars")]
+        recv = t[t.index("void supla_esp_recv_callback("):]
+    except ValueError:
+        raise ExtractError("cfgmode.c: form parser functions not found")
+    n = re.sub(r"\s+", " ", body)
+    names = {m.group(1): bytes(ord(m.group(k)) for k in (2, 3, 4))
+             for m in re.finditer(r"char (\w+)\[3\] = \{'(.)', '(.)', '(.)'\};", n)}
+    try:
+        chain = n[n.index("if (len - a >= 4 && pdata[a + 3] == '=') {") + len("if (len - a >= 4 && pdata[a + 3] == '=') {"):]
+        chain = chain[:chain.index("a += 4; pVars->offset = 0; }")]
+    except ValueError:
+        raise ExtractError("cfgmode.c: name dispatch of supla_esp_parse_vars not recognised")
+    parts = re.split(r"(?:\} else )?if \(memcmp\((\w+), &pdata\[a\], 3\) == 0\) \{", chain)
+    if parts[0].strip():
+        raise ExtractError("cfgmode.c: unexpected text before the name chain: " + parts[0][:60])
+    rows = []
+    for nm, txt in zip(parts[1::2], parts[2::2]):
+        if nm not in names:
+            raise ExtractError("cfgmode.c: name array %s not found" % nm)
+        cond = 0
+        mc = re.search(r"if \((!?)\(?cfg->Flags & (0x[0-9a-fA-F]+|\d+)\)?\) \{", txt)
+        if mc:
+            cond = 1 if mc.group(1) == "!" else 2
+            if int(mc.group(2), 0) != 1:
+                raise ExtractError("cfgmode.c: protocol condition of %s tests another flag" % nm)
+            txt = txt.replace(mc.group(0), "", 1)
+        mv = re.search(r"pVars->current_var = (\d+);", txt)
+        ms = re.search(r"pVars->buff_size = ([0-9()+*\- ]+);", txt)
+        mp = re.search(r"pVars->pbuff = ([\w>\-]+);", txt)
+        if not (mv and ms and mp) or mp.group(1) not in FORM_TARGETS:
+            raise ExtractError("cfgmode.c: assignment of field %s not recognised: %s" % (nm, txt[:80]))
+        rest = txt
+        for m_ in (mv, ms, mp):
+            rest = rest.replace(m_.group(0), "", 1)
+        rest = rest.replace("if (user_cmd == ((void *)0)) { user_cmd = malloc(1024); }", "")
+        rest = re.sub(r"if \(user_cmd == \(\(void \*\)0\)\) \{ user_cmd = malloc\(\d+\); \}", "", rest)
+        if rest.replace("}", "").strip():
+            raise ExtractError("cfgmode.c: unrecognised statement in the branch of %s: %s" % (nm, rest.strip()[:80]))
+        rows.append((names[nm], int(mv.group(1)), int(eval(ms.group(1), {"__builtins__": {}})), FORM_TARGETS[mp.group(1)], cond))
+    if len(rows) < 10 or len(set(r[0] for r in rows)) != len(rows):
+        raise ExtractError("cfgmode.c: %d rows, names not distinct" % len(rows))
+    # the loop body behind the dispatch: copy step, end of value, terminator, (hook), counting
+    tail = n[n.index("a += 4; pVars->offset = 0; }"):]
+    shape = [
+        "a += 4; pVars->offset = 0; } } if (pVars->current_var != 0) { if (pVars->offset < pVars->buff_size && a < len && pdata[a] != '&') { "
+        "if (pdata[a] == '%' && a + 2 < len) { pVars->pbuff[pVars->offset] = HexToInt(&pdata[a + 1], 2); pVars->offset++; a += 2; } "
+        "else if (pdata[a] == '+') { pVars->pbuff[pVars->offset] = ' '; pVars->offset++; } else { pVars->pbuff[pVars->offset] = pdata[a]; "
+        "pVars->offset++; } } if (pVars->offset >= pVars->buff_size || a >= len - 1 || pdata[a] == '&') { if (pVars->offset < pVars->buff_size) "
+        "pVars->pbuff[pVars->offset] = 0; else pVars->pbuff[pVars->buff_size - 1] = 0;",
+        "pVars->matched++; pVars->current_var = 0; } } }",
+    ]
+    for sh in shape:
+        if sh not in tail:
+            raise ExtractError("cfgmode.c: loop body of supla_esp_parse_vars not recognised near: " + sh[:60])
+    if "for (int a = 0; a < len; a++) { if (pVars->current_var == 0) {" not in n:
+        raise ExtractError("cfgmode.c: loop head of supla_esp_parse_vars not recognised")
+    pn = re.sub(r"\s+", " ", proto)
+    mpro = re.search(r"char pro\[3\] = \{'(.)', '(.)', '(.)'\};", pn)
+    pshape = ("if (len - a >= 4 && pdata[a + 3] == '=') { if (memcmp(pro, &pdata[a], 3) == 0 && len - a >= 5) { pVars->current_var = ",
+              "a += 4; pVars->offset = 0; } }",
+              "pVars->matched++; pVars->current_var = 0; if (pVars->intval[0] - '0' == 1) { cfg->Flags |= 0x01; } else { cfg->Flags &= ~0x01; } return;")
+    if not mpro or any(x not in pn for x in pshape):
+        raise ExtractError("cfgmode.c: supla_esp_parse_proto_var not recognised")
+    rn = re.sub(r"\s+", " ", recv)
+    mmin = re.search(r"if \(pVars->matched < (\d+)\) \{ return; \}", rn)
+    rq = re.sub(r"\s+", " ", t[t.index("void supla_esp_parse_request("):t.index("void supla_esp_recv_callback(")])
+    if not mmin or "pVars->step = 4; p += 3;" not in rq.replace("STEP_PARSE_VARS", "4") and "p += 3;" not in rq:
+        raise ExtractError("cfgmode.c: save threshold / head skip not recognised")
+    def lb(b):
+        return "[" + ", ".join(str(x) for x in b) + "]"
+    out = ["/- GENERATED by tools/extract.py from /repo/src/user/supla_esp_cfgmode.c (supla_esp_parse_vars) - do not edit -/",
+           "import SuplaVerif.Model.FormScan", "namespace SuplaVerif.Gen", "",
+           "/-- the else-if chain of field names, in source order -/", "def formTable : List Row := ["]
+    out += ["  { name := %s, var := %d, size := %d, target := %d, cond := %d }%s" % (lb(r[0]), r[1], r[2], r[3], r[4], "," if i < len(rows) - 1 else "")
+            for i, r in enumerate(rows)]
+    out += ["]", "", "/-- name of the protocol field of supla_esp_parse_proto_var -/",
+            "def formPro : Bytes := %s" % lb(bytes(ord(mpro.group(k)) for k in (1, 2, 3))),
+            "/-- supla_esp_recv_callback returns before saving while fewer fields were counted -/",
+            "def formMinFields : Nat := %s" % mmin.group(1), "", "end SuplaVerif.Gen", ""]
+    write_if_changed(os.path.join(C.LEAN, "SuplaVerif", "Gen", "FormTable.lean"), "\n".join(out))
+    return rows
+
+
 def main_quiet():
     emit_consts()
     gen_getdata()
     gen_html()
+    gen_form_table()
     emit_root()
 
 
